@@ -244,6 +244,28 @@ func canonGenesis(g *orbtypes.GenesisState) string {
 
 var appAckRe = regexp.MustCompile(`^ABCI code: \d+: error handling packet: see events for details$`)
 
+// panicAttribution applies the attribution rule of DESIGN.md (C14): walking the stack from the panic
+// outwards, the first frame that belongs either to the orbiter module (other than the middleware's
+// own OnRecvPacket, which is on every stack) or to the wrapped ICS-20 application decides.
+func panicAttribution(stack string) string {
+	for _, line := range strings.Split(stack, "\n") {
+		if strings.HasPrefix(line, "\t") {
+			continue
+		}
+		if strings.Contains(line, "ibc-go/v8/modules/apps/transfer") {
+			return "app"
+		}
+		if strings.Contains(line, "noble-assets/orbiter/v2/") && !strings.Contains(line, "IBCMiddleware.OnRecvPacket") &&
+			!strings.Contains(line, "orbiter/v2/simapp") {
+			return "orb"
+		}
+		if strings.Contains(line, "noble-fiattokenfactory/x/blockibc") {
+			return "app"
+		}
+	}
+	return "ext"
+}
+
 type recvObs struct {
 	ack      string // ok | err | panic | nil
 	src      string // orb | app | -
@@ -411,8 +433,12 @@ func (s *appState) recvLine(d *driver, stack porttypes.IBCModule, f []string, wi
 		ev = orbiterEventNames(obs.events)
 	}
 	ackh := sha256.Sum256(obs.ackBytes)
-	return fmt.Sprintf("ack=%s src=%s bal=%s sup=%s req=%s ev=%s st=%s ackh=%s evh=%s acktxt=%s", obs.ack, obs.src, bal, sup, req, ev,
-		s.stateStr(s.env.Ctx), hex.EncodeToString(ackh[:8]), eventsHash(obs.events), hxb(obs.ackBytes))
+	pattr := "-"
+	if obs.ack == "panic" {
+		pattr = panicAttribution(obs.panicMsg)
+	}
+	return fmt.Sprintf("ack=%s src=%s bal=%s sup=%s req=%s ev=%s st=%s ackh=%s evh=%s pattr=%s acktxt=%s", obs.ack, obs.src, bal, sup, req, ev,
+		s.stateStr(s.env.Ctx), hex.EncodeToString(ackh[:8]), eventsHash(obs.events), pattr, hxb(obs.ackBytes))
 }
 
 func (s *appState) op(d *driver, f []string) string {
